@@ -377,8 +377,8 @@ fn run_history(cx: &mut Ctx, rng: &mut Rng, hid: u64, depth: usize, class: usize
 }
 
 pub fn run(cx: &mut Ctx) {
-    let nhist = cx.tier.pick(64usize, 6000, 200_000);
-    let depth = 24usize;
+    let nhist = cx.tier.pick(64usize, 6000, 1_500_000);
+    let depth = 24usize; // histories with index % 5 == 0 run twice as deep
     let mut idx = 0u64;
     let mut logged = 0usize;
     for hnum in 0..nhist {
@@ -395,7 +395,7 @@ pub fn run(cx: &mut Ctx) {
             }
             cx.key_h(idx);
             cx.cover("api", if use_obj { "DryocStream" } else { "classic" });
-            run_history(cx, &mut rng, idx, depth, class, use_obj, log_offline);
+            run_history(cx, &mut rng, idx, if hnum % 5 == 0 { 2 * depth } else { depth }, class, use_obj, log_offline);
         }
     }
 }
